@@ -36,6 +36,12 @@ Example C04_example :
   clean s /\ taint_iter s = false /\ tasks_of s 0 = 3 /\ map m_final (mtasks s) = [Some OResult].
 Proof. vm_compute. repeat split; reflexivity. Qed.
 
+(** Monitor soundness: the extracted monitor for C04 (all three clauses) never rejects a stream of the model (P-iter). *)
+From TP Require PMonSound_C04 PObs PMon.
+Theorem mon_sound : forall c tr, clean (run c tr) -> taint_iter (run c tr) = false -> PMon.ok_C04 c (PObs.observe c tr) = true.
+Proof. exact PMonSound_C04.mon_C04_sound. Qed.
+
 Print Assumptions C04.
 Print Assumptions C04_nothing_stranded.
 Print Assumptions C04_complete_at_rest.
+Print Assumptions mon_sound.
